@@ -12,6 +12,9 @@ R3 adjacent codes: in training the value set stays inside the declared code
    set of the format (C01 oracle): the stochastic rounding must act on the
    code index with precision 1.
 R4 unbiased orientation of stochastic_round / stochastic_round_po2.
+R5 every configuration that requests stochastic rounding has a random draw
+   in its training arm (a dropped option makes the rounding deterministic
+   and therefore biased between two codes).
 """
 from fractions import Fraction as F
 
@@ -266,6 +269,16 @@ def run(rep, repo, tier):
                   "the output depends on the learning phase although "
                   "stochastic rounding is off", loc=loc, instance=cfg)
       continue
+    # R5 a configuration that asks for stochastic rounding draws in training
+    ft5 = b.fwd("train")
+    rep.check(qref.has_rand(b.term) or any(
+        a[0] == "sym" and str(a[1]).startswith("RAISES")
+        for a in ft5.atoms()), "R5", unit,
+              "stochastic-option-without-random-draw",
+              "stochastic rounding is requested but no random draw reaches "
+              "the output in the training phase: the rounding is "
+              "deterministic (round to nearest is biased for inputs between "
+              "two codes)", loc=loc, instance=cfg)
     # R2 inference arm == deterministic configuration
     dcls, dkw = det_config(cls, kw)
     try:
